@@ -5,6 +5,8 @@
 From Coq Require Import String.
 From Coq Require Import List ZArith Bool Permutation Sorted.
 From Paloma Require Import Base.Num Valset.Snapshot Valset.SnapshotProofs Evm.Compass Evm.CompassProofs.
+From Paloma Require Import Valset.Worthy Valset.WorthyProofs.
+From Paloma Require Valset.WorthyFloat.
 From Paloma Require Gen.C10.
 Import ListNotations.
 Open Scope Z_scope.
@@ -181,6 +183,50 @@ Theorem source_ids_as_modelled :
   Gen.C10.callers_of_TriggerSnapshotBuild = ["x/skyway/keeper:addValidators"; "x/valset:EndBlock"]%string.
 Proof. exact source_ids_shape. Qed.
 Print Assumptions source_ids_as_modelled.
+
+(** When a snapshot is stored (round 2): isNewSnapshotWorthy is part of the model ([worthy]), so a
+    history consists of environment changes, TriggerSnapshotBuild and SetSnapshotOnChain only — the
+    model decides by itself whether a build stores.  Every such history is one of the histories
+    [run] ranges over, hence every theorem above holds for it. *)
+Theorem real_histories_are_histories : forall ops, rrun ops = run (resolve_from init ops).
+Proof. exact rrun_is_run. Qed.
+Print Assumptions real_histories_are_histories.
+
+(** After every TriggerSnapshotBuild there is a current snapshot: the faithful one just created,
+    under the next id — or, when the build was not stored, the previous current snapshot, which
+    [unstored_build_leaves_close_snapshot] relates to the faithful one. *)
+Theorem current_after_build : forall ops,
+  let st := rrun ops in
+  let st' := rstep st RBuild in
+  exists cur, current st' = Some cur /\
+    ((build_verdict st = true /\ cur = with_id (st_counter st + 1) (create st) /\ st_counter st' = st_counter st + 1)
+     \/ (build_verdict st = false /\ st' = st /\ current st = Some cur /\ worthy (Some cur) (create st) = false)).
+Proof. exact after_build. Qed.
+Print Assumptions current_after_build.
+
+(** A build is not stored only if the current snapshot holds the same validators, ranked the same
+    by share, every stake fraction (18 decimals) within 1 % of the new one, and every account key
+    of every validator still registered; the very first build is always stored. *)
+Theorem unstored_build_leaves_close_snapshot : forall cur new,
+  worthy (Some cur) new = false ->
+  length (sn_vals cur) = length (sn_vals new) /\
+  map v_addr (sort_asc (sn_vals cur)) = map v_addr (sort_asc (sn_vals new)) /\
+  Permutation (map v_addr (sn_vals cur)) (map v_addr (sn_vals new)) /\
+  (forall c n, In (c, n) (combine (sort_asc (sn_vals cur)) (sort_asc (sn_vals new))) ->
+     v_addr c = v_addr n /\
+     Z.abs (fraction (v_share c) (sn_total cur) - fraction (v_share n) (sn_total new)) < one_percent /\
+     length (v_infos c) = length (v_infos n) /\
+     forall e, In e (v_infos c) -> exists e', In e' (v_infos n) /\ acc_key e' = acc_key e).
+Proof. exact unstored_is_close. Qed.
+Print Assumptions unstored_build_leaves_close_snapshot.
+
+(** The float test of isNewSnapshotWorthy — the 18-decimal difference converted to the nearest
+    binary64 and compared with the binary64 nearest to 0.01 — is exactly the integer test of the
+    model, for every non-negative difference (Flocq; stdlib real-number axioms). *)
+Theorem worthy_float_test_is_exact : forall d : Z, 0 <= d ->
+  WorthyFloat.go_test d = float_ge_one_percent d.
+Proof. exact WorthyFloat.dec_float_ge_one_percent. Qed.
+Print Assumptions worthy_float_test_is_exact.
 
 
 (* --- source translation tie (GenFn) --- *)
